@@ -772,8 +772,14 @@ KEY_FIELDS = ('created', 'pkalg', 'keymaterial')
 
 
 def _strip_copy(t):
-    m = re.match(r'^copy\.(?:copy|deepcopy)\((.+)\)$', t or '')
-    return m.group(1) if m else t
+    """The value a copying expression carries: copy.copy(X), X.copy(), X[:], bytearray(X) / bytes(X) / list(X) / dict(X) -> X."""
+    t = t or ''
+    for pat in (r'^copy\.(?:copy|deepcopy)\((.+)\)$', r'^(.+)\.copy\(\)$', r'^(.+)\[:\]$',
+                r'^(?:bytearray|bytes|list|dict|collections\.OrderedDict)\((.+)\)$'):
+        m = re.match(pat, t)
+        if m and m.group(1).count('(') == m.group(1).count(')'):
+            return m.group(1)
+    return t
 
 
 def check_key_packet_rebuilds(rep, prog, rid):
@@ -868,6 +874,20 @@ def _serialised_attrs(prog, K):
     return out
 
 
+def _property_slot(K, name):
+    """The instance attribute a property of K returns unchanged (`return self._x`), else None."""
+    p = K.find_prop(name)
+    getter = p.getter if p is not None else (K.find_plain_prop(name) or {}).get('get')
+    if getter is None:
+        return None
+    rets = [n for n in ast.walk(getter.node) if isinstance(n, ast.Return)]
+    first = getter.params[0] if getter.params else None
+    if len(rets) == 1 and isinstance(rets[0].value, ast.Attribute) and isinstance(rets[0].value.value, ast.Name) and \
+            rets[0].value.value.id == first:
+        return rets[0].value.attr
+    return None
+
+
 def _mpis_names(prog, K, after=None):
     """Names K().__mpis__ yields (class-level tuple, or a generator property chaining super().__mpis__), else None."""
     mro = K.mro()
@@ -950,8 +970,9 @@ def check_copy_carries_serialised(rep, prog, rid, roots=None):
     todo, seen = [], set()
     if roots is not None:
         # explicit domain: [(class name, what it is)] - every class is its own serialiser
+        pkts = prog.module('pgpy.packet.packets')
         for cn, what in roots:
-            K = fields.classes.get(cn)
+            K = fields.classes.get(cn) or pkts.classes.get(cn)
             if K is None:
                 raise AnalysisError('material class %s not found' % cn)
             if K.name not in seen:
@@ -1024,7 +1045,12 @@ def check_copy_carries_serialised(rep, prog, rid, roots=None):
                             mpis = _mpis_names(prog, K) or []
                         for a in mpis:
                             carried.setdefault(a, '%s.%s' % (first, a))
-            bad = sorted(a for a in R if _strip_copy(carried.get(a)) != '%s.%s' % (first, a))
+            def _carried(a):
+                if _strip_copy(carried.get(a)) == '%s.%s' % (first, a):
+                    return True
+                slot = _property_slot(K, a)      # `x` read through a property whose getter returns self._x: carrying _x carries x
+                return slot is not None and _strip_copy(carried.get(slot)) == '%s.%s' % (first, slot)
+            bad = sorted(a for a in R if not _carried(a))
             n += 1
             rep.check(not bad, rid, '%s.__copy__' % K.name,
                       'copy carries %s%s' % (sorted(R), '; NOT carried from the source: %s' % ['%s = %s' % (a, carried.get(a)) for a in bad] if bad else ''),
